@@ -53,7 +53,11 @@ Cfgs == {c \in [op : Ops, plat : Platforms, any_pin : BOOLEAN, no_unlock : BOOLE
             /\ (c.outfile => (c.op = "pubkeys" \/ (c.op = "onboard" /\ c.plat = "ledger")))}
 
 Env0 == [pinc |-> "?", mode |-> "?", onb |-> "?", echo |-> "?", answers |-> "?", retry |-> "?",
-         wipe |-> "?", unlock |-> "?", newpin |-> "?", mode2 |-> "?", keys |-> "?"]
+         wipe |-> "?", unlock |-> "?", newpin |-> "?", mode2 |-> "?", keys |-> "?", pre |-> "?"]
+
+\* what already sits at the output path(s) when the command comes to write (see AdminProps)
+PrePubkeys == {"absent", "same", "other", "extra", "fewer", "notjson", "dir", "dirjson"}
+PreOnboard == {"absent", "other", "notjson", "dir"}
 
 Init == /\ pc = "start" /\ cfg \in Cfgs /\ env = Env0
         /\ dev = [mode |-> "?", onb |-> "?"]
@@ -76,7 +80,7 @@ C == [op |-> cfg.op, plat |-> cfg.plat, any_pin |-> cfg.any_pin, no_unlock |-> c
       upin |-> UPin, outfile |-> cfg.outfile, answers |-> Answers(env.answers),
       d0 |-> [mode |-> env.mode, onb |-> IF Garbled(env.onb) THEN "garbled" ELSE env.onb, echo |-> env.echo],
       acc |-> [wipe |-> env.wipe, unlock |-> env.unlock, newpin |-> env.newpin],
-      prev_seed |-> NoSeed]
+      pre |-> env.pre, prev_seed |-> NoSeed]
 
 \* events are folded with the inputs as known so far: Observe only reads op / plat / any_pin /
 \* no_unlock / prev_seed, which never change during a run
@@ -238,10 +242,14 @@ PostUnlock ==
        /\ IF ok = "t" THEN Go("attest") ELSE Fail
     /\ UNCHANGED <<cfg, env, dev, files, pin>>
 
+\* attestation setup, then the certificate is saved over whatever is at the output path
 Attest ==
     /\ pc = "attest"
     /\ Emit([k \in 1..8 |-> E("admin", dev, "na", "t")])
-    /\ Done /\ UNCHANGED <<cfg, env, dev, files, pin>>
+    /\ \E p \in PreOnboard :
+         /\ env' = [env EXCEPT !.pre = p]
+         /\ IF p = "dir" THEN Fail ELSE Done
+    /\ UNCHANGED <<cfg, dev, files, pin>>
 
 (***************************************************************************)
 (* Unlock                                                                  *)
@@ -328,13 +336,19 @@ GetKeys ==
             ELSE /\ Emit(<<E("get_pubkey", dev, DocSeq[1], "f")>>) /\ Fail
     /\ UNCHANGED <<cfg, dev, files, pin>>
 
+\* the text table, then the JSON, each written over whatever is there; a directory in the way is an
+\* error (with the JSON path blocked the text file has been written already)
+Fresh == [txt  |-> [k \in 1..Len(Expect) |-> <<Expect[k].path, Expect[k].c>>],
+          json |-> [k \in 1..Len(Expect) |-> <<Expect[k].path, Expect[k].u>>]]
 WriteFiles ==
     /\ pc = "write" /\ Quiet
-    /\ files' = IF cfg.outfile
-                THEN [txt  |-> [k \in 1..Len(Expect) |-> <<Expect[k].path, Expect[k].c>>],
-                      json |-> [k \in 1..Len(Expect) |-> <<Expect[k].path, Expect[k].u>>]]
-                ELSE files
-    /\ Done /\ UNCHANGED <<cfg, env, dev, pin>>
+    /\ IF ~cfg.outfile THEN Done /\ UNCHANGED <<files, env>>
+       ELSE \E p \in PrePubkeys :
+              /\ env' = [env EXCEPT !.pre = p]
+              /\ IF p = "dir" THEN Fail /\ UNCHANGED files
+                 ELSE IF p = "dirjson" THEN Fail /\ files' = [Fresh EXCEPT !.json = <<>>]
+                 ELSE Done /\ files' = Fresh
+    /\ UNCHANGED <<cfg, dev, pin>>
 
 Next == Validate \/ AskMode \/ AskOnb \/ Echo \/ Confirm \/ GetPin \/ GenSeed \/ SendSeed
         \/ SendOnbPin \/ Wipe \/ SgxOnboard \/ PostUnlock \/ Attest \/ SendPin \/ Unlock
@@ -350,6 +364,7 @@ PinPolicy      == PinPolicyP(obs)
 PinHeld        == Terminal => PinHeldP(C, obs, pin)
 Carried        == Terminal => CarriedP(C, obs, outcome)
 PubkeysWritten == Terminal => PubkeysWrittenP(C, outcome, files, Expect)
+WriteError     == Terminal => WriteErrorP(C, outcome)
 \* vacuity guards: each must be *violated* (negative configurations)
 NeverOnboards   == ~(Terminal /\ cfg.op = "onboard" /\ outcome = "ok")
 NeverUnlocks    == ~(Terminal /\ cfg.op = "unlock" /\ outcome = "ok")
